@@ -303,12 +303,12 @@ def check_distinct_resamples(case):
     ties = [(qs[i], vals[i]) for i in range(len(vals) - 1) if vals[i + 1] == vals[i]]
     M.need(not ties, f"n_boot={B} resamples of n={n} rows: the quantiles at the levels k/(n_boot-1) repeat the value(s) {ties[:3]} - "
                      f"two resamples drew exactly the same rows (random_state={case['mf_seed']})")
-    return ["nt", f"n_boot={B}"]
+    return ["nt", f"n_boot={B}"] + (["n_boot>1000"] if B > 1000 else [])
 
 
 @st.composite
 def _distinct_case(draw):
-    return {"n": draw(st.integers(30, 80)), "n_boot": draw(st.sampled_from([4, 8, 20, 50, 100])), "groups": draw(st.integers(1, 3)),
+    return {"n": draw(st.integers(30, 80)), "n_boot": draw(st.sampled_from([4, 8, 20, 50, 100, 100, 1100, 2100])), "groups": draw(st.integers(1, 3)),
             "seed": draw(st.integers(0, 2**31 - 1)), "mf_seed": draw(st.integers(0, 2**31 - 1))}
 
 
@@ -382,7 +382,8 @@ SUBS = [
         floors={"nt": 0.2}),
     Sub("group_constant_predictions", check_group_constant, strategy=_group_constant_case, quick=400, thorough=8000, shards=16,
         floors={"rare_groups>=2": 0.3}),
-    Sub("distinct_resamples", check_distinct_resamples, strategy=_distinct_case, quick=64, thorough=1200, shards=16, shrink_quick=False),
+    Sub("distinct_resamples", check_distinct_resamples, strategy=_distinct_case, quick=64, thorough=1200, shards=16, shrink_quick=False,
+        floors={"n_boot>1000": 0.08}),
     Sub("uniform_draws", check_uniform_draws, strategy=_uniform_case, quick=96, thorough=1600, shards=16, shrink_quick=False,
         floors={"skewed_sample_weight_present": 0.3}),
 ]
